@@ -44,18 +44,18 @@ func (d locDB) Location() common.Location { return d.loc }
 
 type stubNet struct{}
 
-func (stubNet) Start() error                                               { return nil }
-func (stubNet) Stop() error                                                { return nil }
-func (stubNet) Subscribe(common.Location, interface{}) error               { return nil }
-func (stubNet) Unsubscribe(common.Location, interface{}) error             { return nil }
-func (stubNet) Broadcast(common.Location, interface{}) error               { return nil }
-func (stubNet) SetConsensusBackend(quai.ConsensusAPI)                      {}
-func (stubNet) PeerCount() uint                                            { return 0 }
-func (stubNet) PeerCountByDirection() (uint, uint)                         { return 0, 0 }
-func (stubNet) AdjustPeerQuality(p2pcore.PeerID, string, func(int) int)    {}
-func (stubNet) ProtectPeer(p2pcore.PeerID)                                 {}
-func (stubNet) UnprotectPeer(p2pcore.PeerID)                               {}
-func (stubNet) BanPeer(p2pcore.PeerID)                                     {}
+func (stubNet) Start() error                                            { return nil }
+func (stubNet) Stop() error                                             { return nil }
+func (stubNet) Subscribe(common.Location, interface{}) error            { return nil }
+func (stubNet) Unsubscribe(common.Location, interface{}) error          { return nil }
+func (stubNet) Broadcast(common.Location, interface{}) error            { return nil }
+func (stubNet) SetConsensusBackend(quai.ConsensusAPI)                   {}
+func (stubNet) PeerCount() uint                                         { return 0 }
+func (stubNet) PeerCountByDirection() (uint, uint)                      { return 0, 0 }
+func (stubNet) AdjustPeerQuality(p2pcore.PeerID, string, func(int) int) {}
+func (stubNet) ProtectPeer(p2pcore.PeerID)                              {}
+func (stubNet) UnprotectPeer(p2pcore.PeerID)                            {}
+func (stubNet) BanPeer(p2pcore.PeerID)                                  {}
 func (stubNet) Request(common.Location, interface{}, interface{}) chan interface{} {
 	ch := make(chan interface{}, 1)
 	close(ch)
@@ -94,8 +94,12 @@ func getNode(t fataler) *fullNode {
 // gomock wants a TestReporter; a failing expectation is a harness problem.
 type mockReporter struct{}
 
-func (mockReporter) Errorf(format string, args ...any) { panic("HARNESS gomock: " + fmt.Sprintf(format, args...)) }
-func (mockReporter) Fatalf(format string, args ...any) { panic("HARNESS gomock: " + fmt.Sprintf(format, args...)) }
+func (mockReporter) Errorf(format string, args ...any) {
+	panic("HARNESS gomock: " + fmt.Sprintf(format, args...))
+}
+func (mockReporter) Fatalf(format string, args ...any) {
+	panic("HARNESS gomock: " + fmt.Sprintf(format, args...))
+}
 
 func startFullNode() (fn *fullNode, err error) {
 	defer func() {
